@@ -86,7 +86,7 @@ class StoreObj(Call):
             if w.mode != "native":
                 f = symfs.FakeFile.__new__(symfs.FakeFile)      # a caller-owned handle: opening it is not an
                 f._fs, f.name, f.mode, f._text = w.F, p, "rb", False   # operation of the call under test
-                f._pending, f._pos, f._writable, f._append, f._closed = [], 0, False, False, False
+                f._pending, f._pos, f._writable, f._append, f._closed, f._orphan = [], 0, False, False, False, False
             else:
                 f = open(p, "rb")
             f.seek(self.off)
